@@ -893,6 +893,43 @@ pub fn run_c02(o: &Opts) -> Report {
             }
         }
     }
+    // State kept across calls (see `lex_state_search`): the property has no "on a fresh thread, with the shared static"
+    // proviso, so parse_F(format_F(x)) must be x whatever the thread parsed before and wherever the format value
+    // lives.  A finding is a failure of C02 when the text IS format_F(x) for an x of the domain: decided on the cold
+    // result w (vocab_ok(w), not K5, format_F(w) = text, so x = w).  Other findings (texts outside the domain,
+    // parse_term, fold) are C08's business and only counted here.
+    {
+        let mut srng = Rng::new(o.seed ^ 0xC02_57A7E);
+        let (texts, always, warm) = state_corpus(&mut srng, if o.thorough { 120 } else { 40 });
+        let res = lex_state_search(&texts, always, if o.thorough { 200 } else { 60 }, &warm, &[0, 1, 2], &mut srng);
+        cx.rep.evaluations += res.observations as u64;
+        cx.rep.hist.0.insert("state:texts".into(), texts.len() as u64);
+        cx.rep.hist.0.insert("state:histories".into(), res.histories as u64);
+        cx.rep.hist.0.insert("state:observations".into(), res.observations as u64);
+        let fms = formats();
+        for f in res.findings {
+            let fm = &fms[f.j];
+            let v = vocab(fm.l);
+            let kw = keywords(fm.l, &v);
+            let dom = Dom { l: fm.l, v: &v, kw: &kw };
+            let in_dom = match &f.cold.parse {
+                Ok(Some(w)) => dom.vocab_ok(w) && !dom.k5(term_of(w)) && guard(|| fm.l.format_narsese(w)).as_deref() == Some(f.text.as_str()),
+                _ => false,
+            };
+            if in_dom && f.got.parse != f.cold.parse {
+                cx.fail(
+                    "state",
+                    "parse(format(x)) differs from x after an earlier parse on the same thread / with an owned format from create_format_*",
+                    format!("[{}] {:?} = format of {:?} -- history: {}", fm.name, f.text, f.cold.parse.as_ref().ok().and_then(|x| x.as_ref()), f.history),
+                    format!("{:?}", f.cold.parse),
+                    format!("{:?}", f.got.parse),
+                    None,
+                );
+            } else {
+                cx.rep.hist.add("state:dependence-outside-the-domain (C08's business)");
+            }
+        }
+    }
     let cases = std::mem::take(&mut cx.cases);
     finish(o, "C02", rep, cases)
 }
@@ -1349,4 +1386,338 @@ pub fn c09_lexical_ws(o: &Opts, mut rep: Report) -> Report {
     let shards = write_shards(&o.outdir, &format!("{}L", rep.prop), "Nv.Run.LexRun", "mismatches_lex", "lcase", "N_scope", &cases, o.shards, "").unwrap();
     rep.shards.extend(shards.into_iter().map(|(p, lo, hi)| (p, lo + offset, hi + offset)));
     rep
+}
+
+// -------------------------------------------------------------------------------------------
+// State kept by the lexical parser ACROSS calls (thread-locals, caches keyed by the address of the format or
+// by the text): used by C02, C08 and C11.
+// The reference of every observation is a COLD parse: a fresh thread that does nothing but this one parse with
+// the shared static instance.  Histories, each on a fresh thread of its own:
+//  (a) order of formats: every ordered pair / triple of formats parses first, then the text under test;
+//  (b) OWNED formats from the public `create_format_ascii/latex/han`: a slot overwritten in place, a local of one
+//      stack frame dropped and re-created, a Box overwritten in place, a Box dropped and re-allocated, a clone whose
+//      original is dropped -- results must equal those of the shared statics;
+//  (c) the SAME text parsed back to back under two different formats.
+// Observed per text: lexical parse, lexical parse_term, lexical parse + fold.
+// -------------------------------------------------------------------------------------------
+use narsese::conversion::string::impl_lexical::format_instances::{create_format_ascii, create_format_han, create_format_latex};
+
+#[derive(Clone, PartialEq, Debug)]
+pub struct LexOut {
+    pub parse: PR<LNarsese>,
+    pub term: PR<LTerm>,
+    /// lexical parse + fold into the same-named enum format, canonical text
+    pub fold: String,
+}
+
+fn lex_out(l: &LexFormat, e: &'static crate::enumgen::EFmt, s: &str) -> LexOut {
+    use narsese::conversion::inter_type::lexical_fold::TryFoldInto;
+    let parse: PR<LNarsese> = guard(|| l.parse(s).ok()).ok_or(());
+    let fold = match &parse {
+        Ok(Some(v)) => {
+            let v = v.clone();
+            match guard(move || v.try_fold_into(e).ok()) {
+                Some(Some(w)) => format!("Ok({})", crate::enumgen::canon_narsese(&w)),
+                Some(None) => "Err".into(),
+                None => "PANIC".into(),
+            }
+        }
+        Ok(None) => "Err".into(),
+        Err(()) => "PANIC".into(),
+    };
+    let term: PR<LTerm> = guard(|| l.parse_term(s).ok()).ok_or(());
+    LexOut { parse, term, fold }
+}
+
+fn create_lex(k: usize) -> LexFormat {
+    match k {
+        0 => create_format_ascii(),
+        1 => create_format_latex(),
+        _ => create_format_han(),
+    }
+}
+
+#[derive(Clone, Copy, Debug, PartialEq)]
+pub enum FmtSrc {
+    Static,
+    SlotInPlace,
+    FrameLocal,
+    BoxInPlace,
+    BoxRealloc,
+    CloneOfDropped,
+}
+pub const FMT_SRCS: [FmtSrc; 6] = [FmtSrc::Static, FmtSrc::SlotInPlace, FmtSrc::FrameLocal, FmtSrc::BoxInPlace, FmtSrc::BoxRealloc, FmtSrc::CloneOfDropped];
+
+enum Holder {
+    Empty,
+    Slot(LexFormat),
+    Boxed(Box<LexFormat>),
+}
+
+/// the same stack frame for every call: a local format created, used, dropped
+#[inline(never)]
+fn with_frame_local(k: usize, f: &mut dyn FnMut(&LexFormat)) {
+    let fmt = create_lex(k);
+    f(std::hint::black_box(&fmt));
+}
+
+impl Holder {
+    /// make format `k` the current one, the way `src` says, and run `f` with it
+    fn with(&mut self, src: FmtSrc, k: usize, f: &mut dyn FnMut(&LexFormat)) {
+        match src {
+            FmtSrc::Static => f(formats()[k].l),
+            FmtSrc::FrameLocal => with_frame_local(k, f),
+            FmtSrc::SlotInPlace => {
+                if let Holder::Slot(slot) = self {
+                    *slot = create_lex(k);
+                } else {
+                    *self = Holder::Slot(create_lex(k));
+                }
+                if let Holder::Slot(slot) = self {
+                    f(slot)
+                }
+            }
+            FmtSrc::BoxInPlace => {
+                if let Holder::Boxed(b) = self {
+                    **b = create_lex(k);
+                } else {
+                    *self = Holder::Boxed(Box::new(create_lex(k)));
+                }
+                if let Holder::Boxed(b) = self {
+                    f(b)
+                }
+            }
+            FmtSrc::BoxRealloc => {
+                *self = Holder::Empty; // dropped first: the allocator is free to hand the block out again
+                *self = Holder::Boxed(Box::new(create_lex(k)));
+                if let Holder::Boxed(b) = self {
+                    f(b)
+                }
+            }
+            FmtSrc::CloneOfDropped => {
+                *self = Holder::Empty;
+                let original = Box::new(create_lex(k));
+                let copy = Box::new((*original).clone());
+                drop(original);
+                *self = Holder::Boxed(copy);
+                if let Holder::Boxed(b) = self {
+                    f(b)
+                }
+            }
+        }
+    }
+}
+
+pub struct StateFinding {
+    /// format of the parse under test
+    pub j: usize,
+    pub text: String,
+    pub history: String,
+    pub cold: LexOut,
+    pub got: LexOut,
+}
+
+fn on_fresh_thread<T: Send + 'static>(f: impl FnOnce() -> T + Send + 'static) -> Option<T> {
+    std::thread::Builder::new().stack_size(64 << 20).spawn(f).ok()?.join().ok()
+}
+
+pub struct StateSearch {
+    pub findings: Vec<StateFinding>,
+    /// cold result per (text index, format)
+    pub cold: Vec<[LexOut; 3]>,
+    pub histories: usize,
+    pub observations: usize,
+}
+
+/// `texts`: the texts under test (the first `always` of them are used in every history, of the others a random sample of `sample`);
+/// `warm[k]`: texts of format k parsed by the earlier steps of a history; `targets`: formats of the parse under test.
+pub fn lex_state_search(texts: &[String], always: usize, sample: usize, warm: &[Vec<String>; 3], targets: &[usize], rng: &mut Rng) -> StateSearch {
+    let fms = formats();
+    let es: [&'static crate::enumgen::EFmt; 3] = [fms[0].e, fms[1].e, fms[2].e];
+    let names = ["ascii", "latex", "han"];
+    // cold references: one fresh thread per (format, text)
+    let mut cold: Vec<[LexOut; 3]> = vec![];
+    let panic_out = LexOut { parse: Err(()), term: Err(()), fold: "THREAD-DIED".into() };
+    for t in texts {
+        let mut row: Vec<LexOut> = vec![];
+        for j in 0..3 {
+            if !targets.contains(&j) {
+                row.push(panic_out.clone());
+                continue;
+            }
+            let t2 = t.clone();
+            let e = es[j];
+            row.push(on_fresh_thread(move || lex_out(formats()[j].l, e, &t2)).unwrap_or(panic_out.clone()));
+        }
+        cold.push([row[0].clone(), row[1].clone(), row[2].clone()]);
+    }
+    let mut out = StateSearch { findings: vec![], cold, histories: 0, observations: 0 };
+    let pick_texts = |rng: &mut Rng| -> Vec<usize> {
+        let mut idx: Vec<usize> = (0..always.min(texts.len())).collect();
+        if texts.len() > always {
+            let mut rest: Vec<usize> = (always..texts.len()).collect();
+            rng.shuffle(&mut rest);
+            idx.extend(rest.into_iter().take(sample));
+        }
+        idx
+    };
+    for &j in targets {
+        let others: Vec<usize> = (0..3).filter(|k| *k != j).collect();
+        let (a, b) = (others[0], others[1]);
+        // (a) + (b): what parses BEFORE the format under test
+        let seqs: Vec<Vec<usize>> = vec![vec![a], vec![b], vec![a, b], vec![b, a], vec![j, a], vec![j, b], vec![a, j, b]];
+        for seq in &seqs {
+            for src in FMT_SRCS {
+                let idx = pick_texts(rng);
+                let my_texts: Vec<String> = idx.iter().map(|i| texts[*i].clone()).collect();
+                let (seq2, warm2) = (seq.clone(), warm.clone());
+                let got = on_fresh_thread(move || {
+                    let mut h = Holder::Empty;
+                    for &k in &seq2 {
+                        h.with(src, k, &mut |l| {
+                            for w in &warm2[k] {
+                                let _ = lex_out(l, es[k], w);
+                            }
+                        });
+                    }
+                    let mut res: Vec<LexOut> = vec![];
+                    h.with(src, j, &mut |l| {
+                        for t in &my_texts {
+                            res.push(lex_out(l, es[j], t));
+                        }
+                    });
+                    res
+                });
+                out.histories += 1;
+                let Some(got) = got else { continue };
+                for (n, i) in idx.iter().enumerate() {
+                    out.observations += 1;
+                    if got[n] != out.cold[*i][j] {
+                        let history = format!(
+                            "fresh thread; formats from {:?}; first parse with [{}] the texts {:?}, then [{}] parses {:?}",
+                            src,
+                            seq.iter().map(|k| names[*k]).collect::<Vec<_>>().join(", then "),
+                            seq.iter().map(|k| warm[*k].clone()).collect::<Vec<_>>(),
+                            names[j],
+                            texts[*i]
+                        );
+                        out.findings.push(StateFinding { j, text: texts[*i].clone(), history, cold: out.cold[*i][j].clone(), got: got[n].clone() });
+                    }
+                }
+            }
+        }
+        // (c) the same text under another format directly before
+        for &i0 in &others {
+            for src in [FmtSrc::Static, FmtSrc::SlotInPlace, FmtSrc::BoxRealloc] {
+                let idx = pick_texts(rng);
+                let my_texts: Vec<String> = idx.iter().map(|i| texts[*i].clone()).collect();
+                let got = on_fresh_thread(move || {
+                    let mut h = Holder::Empty;
+                    let mut res: Vec<LexOut> = vec![];
+                    for t in &my_texts {
+                        h.with(src, i0, &mut |l| {
+                            let _ = lex_out(l, es[i0], t);
+                        });
+                        h.with(src, j, &mut |l| res.push(lex_out(l, es[j], t)));
+                    }
+                    res
+                });
+                out.histories += 1;
+                let Some(got) = got else { continue };
+                for (n, i) in idx.iter().enumerate() {
+                    out.observations += 1;
+                    if got[n] != out.cold[*i][j] {
+                        let history = format!("fresh thread; formats from {:?}; ... [{}] parses {:?}, directly afterwards [{}] parses the same text {:?}", src, names[i0], texts[*i], names[j], texts[*i]);
+                        out.findings.push(StateFinding { j, text: texts[*i].clone(), history, cold: out.cold[*i][j].clone(), got: got[n].clone() });
+                    }
+                }
+            }
+        }
+    }
+    out
+}
+
+/// texts for the state search: per format, the formatter's output for a systematic tour of the vocabulary (every copula /
+/// connecter / set bracket with atom operands of every prefix, sentences and tasks with every stamp form) and random
+/// domain values; plus texts that are valid in SEVERAL formats with different structures: bare words, every format's
+/// prefixes / punctuations glued to a name (`_x`, `任一x`, `_1?`, `#a.`).
+/// Returns (texts, number of systematic ones at the front, warm-up texts per format).
+pub fn state_corpus(rng: &mut Rng, n_random: usize) -> (Vec<String>, usize, [Vec<String>; 3]) {
+    let mut systematic: Vec<String> = vec![];
+    let mut random: Vec<String> = vec![];
+    let mut warm: [Vec<String>; 3] = [vec![], vec![], vec![]];
+    let mut shared: Vec<String> = vec![];
+    let all = formats();
+    for fm in &all {
+        let v = vocab(fm.l);
+        let kw = keywords(fm.l, &v);
+        let (a, b) = if fm.idx == 2 { ("知更鸟", "鸟") } else { ("robin", "bird") };
+        let st = |c: &str, p: &str| mk_statement(c, mk_atom(p, a), mk_atom("", b));
+        let fmt = |x: &LNarsese| guard(|| fm.l.format_narsese(x));
+        for (ci, c) in v.copulas.iter().enumerate() {
+            for p in std::iter::once(String::new()).chain(v.prefixes.iter().cloned()).take(if ci < 2 { 99 } else { 2 }) {
+                systematic.extend(fmt(&LNarsese::Term(st(c, &p))));
+            }
+            systematic.extend(fmt(&LNarsese::Sentence(mk_sentence(st(c, ""), v.punctuations[ci % v.punctuations.len()].clone(), "", vec!["1".into(), "0.9".into()]))));
+            systematic.extend(fmt(&LNarsese::Term(mk_statement(c.clone(), st(c, ""), st(c, "")))));
+        }
+        for c in &v.connecters {
+            systematic.extend(fmt(&LNarsese::Term(mk_compound(c.clone(), vec![mk_atom("", a), st(&v.copulas[0], ""), mk_atom("", b)]))));
+        }
+        for (l, r) in &v.set_brackets {
+            systematic.extend(fmt(&LNarsese::Term(mk_set(l.clone(), vec![mk_atom("", a), st(&v.copulas[0], "")], r.clone()))));
+        }
+        for (sa, sb) in &v.stamp_brackets {
+            let stamp = if sa.is_empty() { format!("{}{}", sa, sb) } else { format!("{}1{}", sa, sb) };
+            systematic.extend(fmt(&LNarsese::Task(LTask { budget: vec!["0.5".into()], sentence: mk_sentence(st(&v.copulas[0], ""), v.punctuations[0].clone(), stamp, vec!["1".into()]) })));
+        }
+        // what the earlier steps of a history parse: an atom next to a copula, a compound, a sentence
+        warm[fm.idx].extend(fmt(&LNarsese::Sentence(mk_sentence(st(&v.copulas[0], ""), v.punctuations[0].clone(), "", vec!["1".into(), "0.9".into()]))));
+        warm[fm.idx].extend(fmt(&LNarsese::Term(mk_compound(v.connecters[0].clone(), vec![mk_atom(v.prefixes[0].clone(), a), mk_atom("", b)]))));
+        warm[fm.idx].extend(fmt(&LNarsese::Term(mk_atom("", a))));
+        let g = LexGen { fm, v: &v, kw: &kw, max_depth: 3, strict_names: true, wild: false, style_override: None };
+        for i in 0..n_random {
+            random.extend(fmt(&g.narsese(rng, i % 3, if i < 8 { Some(i % 4) } else { None })).filter(|s| s.chars().count() <= 120));
+        }
+        // several formats, different structures
+        for name in ["x", "1", "a1", "甲"] {
+            shared.push(name.to_string());
+            for p in &v.prefixes {
+                shared.push(format!("{}{}", p, name));
+                for q in v.punctuations.iter().take(2) {
+                    shared.push(format!("{}{}{}", p, name, q));
+                }
+            }
+            for q in &v.punctuations {
+                shared.push(format!("{}{}", name, q));
+            }
+        }
+    }
+    shared.sort();
+    shared.dedup();
+    systematic.extend(shared);
+    let always = systematic.len();
+    systematic.extend(random);
+    (systematic, always, warm)
+}
+
+/// C08's lexical half: the result of a lexical parse (and parse_term, and parse + fold) depends only on format and text
+pub fn c08_lexical_state(o: &Opts, rep: &mut Report) {
+    let mut rng = Rng::new(o.seed ^ 0xC08_57A7E);
+    let (texts, always, warm) = state_corpus(&mut rng, if o.thorough { 120 } else { 40 });
+    let res = lex_state_search(&texts, always, if o.thorough { 200 } else { 60 }, &warm, &[0, 1, 2], &mut rng);
+    rep.evaluations += res.observations as u64;
+    rep.hist.0.insert("lexical-state:texts".into(), texts.len() as u64);
+    rep.hist.0.insert("lexical-state:histories".into(), res.histories as u64);
+    rep.hist.0.insert("lexical-state:observations".into(), res.observations as u64);
+    for f in res.findings {
+        rep.fail(Failure {
+            stream: "lexical-state".into(),
+            what: "lexical parser: the result depends on what the thread parsed before / on where the format value lives, not only on format and text".into(),
+            input: format!("[{}] {:?} -- history: {}", ["ascii", "latex", "han"][f.j], f.text, f.history),
+            expected: format!("{:?} (the same parse alone on a fresh thread with the shared static)", f.cold),
+            got: format!("{:?}", f.got),
+            known: None,
+        });
+    }
 }
